@@ -85,6 +85,9 @@ def pack_attrs(a, do_spacing=False):
             # coordinates to record: store the number itself
             val = val.item()
         if isinstance(val, xr.DataArray):
+            # the coordinates are written as a yaml mapping, which comes back
+            # with sorted keys: store the values in that order of dimensions
+            val = val.transpose(*sorted(val.dims, key=str))
             new_attrs[attr_coords][attr] = {}
             for dim in val.dims:
                 new_attrs[attr_coords][attr][str(dim)]=val[dim].values
